@@ -40,7 +40,7 @@ func govcRef(s, sub string) bool {
 }
 
 func TestGovcReplay(t *testing.T) {
-	alphabet := []rune{'k', 'K', '\u212a', 's', '\u017f', 'a', 'A', '\u00e9', '\u00c9', '1', '\u03c3', '\u03c2', '\u03a3'}
+	alphabet := []rune{'k', 'K', '\u212a', 's', '\u017f', 'a', 'A', '\u00e9', '\u00c9', '1', '\u03c3', '\u03c2', '\u03a3', '\u0398', '\u03b8', '\u03d1', '\u03f4'}
 	maxS, maxSub := %d, %d
 	var all func(n int) []string
 	all = func(n int) []string {
@@ -104,7 +104,7 @@ func c13Bounded(eng *Engine, tier string, seed int64) *BoundedResult {
 	out := runReplayTest(repoDir(), filepath.Join(repoDir(), "stringutil"), src)
 	res := &BoundedResult{
 		What:  "ContainsFold compared, on the real code, with the reference definition of the property (same-length substring at a rune boundary that is strings.EqualFold to substr) and, for ASCII operands, with strings.Contains(ToLower(s), ToLower(substr))",
-		Bound: fmt.Sprintf("all s of at most %d runes and all substr of at most %d runes over the alphabet k K U+212A s U+017F a A e-acute E-acute 1 sigma final-sigma Sigma", maxS, maxSub),
+		Bound: fmt.Sprintf("all s of at most %d runes and all substr of at most %d runes over the alphabet k K U+212A s U+017F a A e-acute E-acute 1 sigma final-sigma Sigma and the four-member theta orbit U+0398 U+03B8 U+03D1 U+03F4", maxS, maxSub),
 	}
 	sum := regexp.MustCompile(`GOVC-BOUNDED cases=(\d+) accepted=(\d+) failures=(\d+)`).FindStringSubmatch(out)
 	if sum == nil {
